@@ -1415,6 +1415,8 @@ class Sym:
                             return "Err{(%s as Err).0}" % self.name(br[2][0])
                         if rp.endswith("option::Option"):
                             return "None{}"
+            if len(t[2]) == 2 and derived_eq(self.prog, t[1]):
+                return "%s(%s)" % (self.call_sig(t), ",".join(sorted(self.arg_name(a) for a in t[2])))
             return "%s(%s)" % (self.call_sig(t), ",".join(self.arg_name(a) for a in t[2]))
         if k == "field":
             comp = self.tuple_component(t)
@@ -2515,6 +2517,15 @@ def chunk_len(sym, src):
     return None
 
 
+def derived_eq(prog, callee):
+    """`<T as PartialEq>::eq` / `ne` generated by #[derive(PartialEq)] (structural, hence symmetric)"""
+    from .guards import impl_cmp
+    if impl_cmp(callee) not in ("Eq", "Ne"):
+        return False
+    b = prog.bodies.get(callee)
+    return b is not None and bool((b.j.get("span") or {}).get("exp"))
+
+
 def closure_pred_name(sym, cbody, ret):
     """canonical rendering of a small closure body such as |&x| x != 0, |c| c.is_ascii_digit(),
     |b| i16::from_be_bytes(b.try_into().unwrap())"""
@@ -2542,6 +2553,11 @@ def closure_pred_name(sym, cbody, ret):
             if s in ("Result::<T, E>::unwrap", "TryInto::try_into", "From::from", "Into::into", "Clone::clone") or \
                     "impl std::convert::From<" in x[1]:
                 return nm(x[2][0], d + 1)
+            if len(x[2]) == 2 and derived_eq(sym.prog, x[1]):
+                # a derived (structural) `==` is symmetric: the closure argument first, else by name
+                an_ = [nm(a, d + 1) for a in x[2]]
+                an_.sort(key=lambda q: (q != "x", q))
+                return "%s(%s)" % (s, ",".join(an_))
             return "%s(%s)" % (s, ",".join(nm(a, d + 1) for a in x[2]))
         if x[0] == "cast":
             return nm(x[2], d + 1)
